@@ -175,7 +175,7 @@ def gen_selections(lst, names, sim, rng, cap, has_short, thorough):
     subsets = [list(c) for r in range(1, len(tn) + 1) for c in itertools.combinations(tn, r)]
     calls = []
     hows_row, hows_col, forms = ['first', 'last', 'mid'], ['c0', 'cl', 'rnd'], ['name', 'int', 'rev']
-    rounds = 4 if thorough else 2
+    rounds = 4 if thorough else 3
     for rd in range(rounds):
         for sub in subsets:
             order = list(sub)
@@ -206,14 +206,14 @@ def gen_selections(lst, names, sim, rng, cap, has_short, thorough):
                 calls.append({'sel': [it], 'form': rng.choice(['tuple', 'list']), 'short': None if not has_short else rng.choice([None, True, False]),
                               'index': rng.randrange(n_idx), 'tables': [n]})
     rng.shuffle(calls)
-    # keep at most `cap` calls, but never more than `cap_hang` of the selections known not to return
-    out, nh = [], 0
-    cap_hang = 40 if thorough else 5
+    # keep at most `cap` calls; of the selections known not to return (3 s each) one per table subset (thorough: four)
+    out, nh = [], {}
+    per_subset = 4 if thorough else 1
     for c in calls:
-        hk = hang_key(sim, c['tables'])
-        if hk:
-            if nh >= cap_hang: continue
-            nh += 1
+        if hang_key(sim, c['tables']):
+            key = tuple(c['tables'])
+            if nh.get(key, 0) >= per_subset: continue
+            nh[key] = nh.get(key, 0) + 1
         out.append(c)
         if len(out) >= cap: break
     return out
@@ -304,6 +304,19 @@ def run_file(pl):
     base = time.time() - t0
     limit = max(pl.get('min_limit', 3.0), 40 * base)
     res['limit'] = round(limit, 2)
+    # --- which skip_to_table_TOUGHplus does the code under test have?  'P' = as found (the two hanging classes), 'Q' = repaired
+    # (proposed_fixes/C06-toughplus-history-loop.diff): decided by behaviour on one selection of each class, then validated by the correspondence
+    variant = 'P'
+    if sim == 'TOUGH+' and {'connection', 'primary', 'element2'} <= set(names):
+        oks = []
+        for sub in (['primary', 'element2'], ['connection', 'element2']):
+            lp = nav.open_listing(path)
+            st, _ = call_history(lp, [(nav.table_spec(t), 0, tabs[t].column_name[0]) for t in sub], None, limit)
+            oks.append(st == 'ok')
+            try: lp.close()
+            except Exception: pass
+        if all(oks): variant = 'Q'
+    res['variant'] = variant if sim == 'TOUGH+' else None
     # --- model predictions
     def state_str(sn): return '%d/%s/%d' % (int(sn[0]), nav.zint(float(sn[1]), den), int(sn[2]))
     sel_str = []
@@ -320,7 +333,7 @@ def run_file(pl):
         for k, c in enumerate(calls): groups.setdefault(c['index'], []).append(k)
         lines = []
         for idx, ks in sorted(groups.items()):
-            lines.append('\t'.join(['hist', {'AUTOUGH2': 'A', 'TOUGH+': 'P'}.get(sim, '2'), ''.join(s[0] for s in short_types),
+            lines.append('\t'.join(['hist', {'AUTOUGH2': 'A', 'TOUGH+': variant}.get(sim, '2'), ''.join(s[0] for s in short_types),
                                     ''.join(s + ';' for s in sets), ''.join(m + ';' for m in metas), state_str(fresh[idx]), 'B'] + [sel_str[k] for k in ks]))
         p = subprocess.run([pl['exe']], input='\n'.join(lines) + '\n', stdout=subprocess.PIPE, stderr=subprocess.PIPE, text=True, timeout=600,
                            env=dict(os.environ, OCAMLRUNPARAM='l=8G'))
@@ -546,6 +559,7 @@ def collect(ctx, results, timeout):
         sims.setdefault(r['sim'], [0, 0]); sims[r['sim']][0] += 1; sims[r['sim']][1] += r['ncalls']
         for k, v in r['stats'].items(): tot[k] = tot.get(k, 0) + v
         for k, v in r.get('hyp', {}).items(): hyp[k] = hyp.get(k, 0) + v
+        if r.get('variant'): ctx.extra.setdefault('toughplus_skip_to_table_variant', {})[j['label']] = {'P': 'as found (hanging classes present)', 'Q': 'repaired'}[r['variant']]
         if r.get('hyp', {}).get('selections') and r['hyp']['wf_file'] != r['hyp']['selections']:
             ctx.log('NOTE: the abstraction of %s is not well-formed in the sense of wf_file (set shapes %s): the positive theorems say nothing about it' % (j['label'], r['sets']))
         for f in r['failures']:
@@ -574,24 +588,27 @@ def collect(ctx, results, timeout):
 
 
 def run(ctx):
-    ctx.rule = ('every shipped listing file; per file every non-empty subset of its tables (incl. subsets that skip intermediate tables) in 2 (thorough: 4) item orders, '
-                '1-2 items per table, rows by name / reversed connection name / integer index, first / last / random interior row, first / last / random column, '
-                'plus every column (quick: first 6) x first/last/interior row on single tables; tuple and list forms; short = default/True/False on AUTOUGH2 files with short output; '
-                'current index in {0, middle, last}; a few items with a row name that is not in the table; quick tier caps the calls per file and the number of calls in the '
-                'known non-terminating class (5 per TOUGH+ file); a case is one history() call, distinct by file, table subset and selection')
+    ctx.rule = ('every shipped listing file; per file every non-empty subset of its tables (incl. subsets that skip intermediate tables) in 3 (thorough: 4) item orders '
+                '(file order, reversed, shuffled), 1-2 items per table, rows by name / reversed connection name / integer index, first / last / random interior row, '
+                'first / last / random column, plus every column (quick: first 6) x first/last/interior row on single tables; tuple and list forms; short = default/True/False on '
+                'AUTOUGH2 files with short output; current index in {0, middle, last}; a few items with a row name that is not in the table; of the table subsets in the known '
+                'non-terminating class one call per subset and TOUGH+ file (thorough: four); a case is one history() call, distinct by file, table subset and selection')
     ctx.trusted += ['Coq 8.16.1 kernel (coqc); vm_compute only on closed terms inside proofs',
-                    'hand model coq/C06/ListingHistory.v of history()/skip_to_table_* over the marker abstraction (validated on this run against the real calls)',
-                    'abstraction of a file to table kinds per result set, obtained by tracing next_table from outside during an ordinary read; AUTOUGH2 short sets by an independent scan',
+                    'hand model coq/C06/ListingHistory.v of history()/skip_to_table_* over the marker abstraction (validated on this run against the real calls, with the fuel bound proved in HistoryFuel.v)',
+                    'abstraction of a file to table kinds per result set, obtained by tracing next_table (and the direct next_table_TOUGH2 calls) from outside during an ordinary read; AUTOUGH2 short sets by an independent scan',
                     'extraction: ExtrOcamlBasic + ExtrOcamlString, OCaml 4.13.1, ocaml/main.ml',
-                    'time limit per call = max(3 s, 40 x the time of a one-item history() on the same file): a call that exceeds it is reported as non-terminating']
+                    'time limit per call = max(3 s, 40 x the time of a one-item history() on the same file): a call that exceeds it is reported as non-terminating',
+                    'the variant of skip_to_table_TOUGHplus (as found / repaired) is chosen by the behaviour of two probe selections and then validated by the correspondence']
     ctx.assumptions += ['rows are addressed by names or by indices inside the table; column names exist (a wrong column name raises KeyError in the middle of the scan)',
-                        'row reading inside a table (skip_to_results_line, sequential readline) is abstract in the model; the oracle covers it by comparing values',
-                        'every table except TOUGH+ primary ends with an @@@@@ line; TOUGH+ tables are introduced by a _____ line (true of the four shipped TOUGH+ files)']
+                        'row reading inside a table (skip_to_results_line, sequential readline, read_table_line) is abstract in the model (`cell`); the oracle covers it by comparing values',
+                        'theorem hypotheses wf_file (per result set: tables named, distinct, in selection order; short sets only in AUTOUGH2 and printing exactly short_types), wf_metas and covers '
+                        '(every selected table is printed at every scanned result set) are evaluated by the extracted model for every call: see hypotheses_met',
+                        'short-output rows are identified by their printed name (the INDEX column of a cut-down listing is not the row number)']
     ctx.stage()
     ok = ctx.coq_build()
     exe = vf.build_driver(ctx) if ok else None
     files = nav.listing_files(ctx.repo)
-    cap = 2000 if ctx.thorough else 160
+    cap = 2000 if ctx.thorough else 240
     timeout = 3000 if ctx.thorough else 420
     results = run_all(ctx, exe, files, cap, timeout)
     collect(ctx, results, timeout)
